@@ -244,8 +244,6 @@ def outcome_for(r, sig_out, token):
         e = err_class(token)('badname ' + token)
         e.dbusErrorName = r.choice(['nodots', '1.starts.with.digit', 'a..b', 'has space.x', '', 'a.b\0c', 'a.b\udc80',
                                     'a.b\nc', 'a.' + 'b' * 300])
-        if e.dbusErrorName == '':
-            e.dbusErrorName = 'x y'
         return ('raise', e), ('error', 'org.txdbus.InvalidErrorName', 'badname ' + token)
     if k < 0.90:
         e = err_class(token)('nul\0text ' + token)
